@@ -21,7 +21,14 @@ rest == <<hist, blk, phase, pend>>
 
 Is(name) == l <= N /\ Ev[l].ev = name /\ l' = l + 1
 E == Ev[l]
-Num(s) == atoi(s)
+\* Values are u64 and do not fit TLC's integers: they stay decimal strings (equality) and are added as three limbs of 7 digits
+Zeros == "000000000000000000000"
+Limbs(s) == LET p == SubSeq(Zeros, 1, 21 - Len(s)) \o s IN <<atoi(SubSeq(p, 1, 7)), atoi(SubSeq(p, 8, 14)), atoi(SubSeq(p, 15, 21))>>
+Norm(x) == LET c3 == x[3] \div 10000000  b == x[2] + c3  c2 == b \div 10000000
+           IN <<x[1] + c2, b % 10000000, x[3] % 10000000>>
+BigAdd(x, y) == Norm(<<x[1] + y[1], x[2] + y[2], x[3] + y[3]>>)
+RECURSIVE BigSum(_, _)
+BigSum(U, S) == IF S = {} THEN <<0, 0, 0>> ELSE LET o == CHOOSE x \in S : TRUE IN BigAdd(Limbs(U[o].val), BigSum(U, S \ {o}))
 
 TInit == Init /\ l = 1 /\ dumped = {} /\ bals = {} /\ hs = {} /\ cbv = ""
 TBegin == Is("cmd") /\ utxo' = <<>> /\ dumped' = {} /\ bals' = {} /\ hs' = {} /\ cbv' = E.cb
@@ -31,19 +38,19 @@ TSpend == /\ Is("spend") /\ E.hit = (E.key \in DOMAIN utxo)
           /\ utxo' = SpendEff(utxo, E.key) /\ UNCHANGED <<dumped, bals, hs, cbv>>
 \* insert_unspents: only address-bearing outputs; the key is txid || LE32(index) = 72 hex digits
 TCreate == /\ Is("create") /\ Len(E.key) = 72 /\ E.addr # ""
-           /\ utxo' = CreateEff(utxo, E.key, [h |-> E.h, val |-> Num(E.value), addr |-> E.addr])
+           /\ utxo' = CreateEff(utxo, E.key, [h |-> E.h, val |-> E.value, addr |-> E.addr])
            /\ hs' = hs \cup {E.h} /\ UNCHANGED <<dumped, bals, cbv>>
 \* every output created while block h was processed carries height h
 TDeliver == Is("deliver") /\ hs \subseteq {E.h} /\ hs' = {} /\ UNCHANGED <<utxo, dumped, bals, cbv>>
 TOnComplete == Is("on_complete") /\ UNCHANGED <<utxo, dumped, bals, hs, cbv>>
 \* unspentcsvdump on_complete: each row is an entry of the map, none twice
 TDumpRow == /\ Is("dump_row") /\ E.key \in DOMAIN utxo /\ E.key \notin dumped
-            /\ utxo[E.key] = [h |-> E.h, val |-> Num(E.value), addr |-> E.addr]
+            /\ utxo[E.key] = [h |-> E.h, val |-> E.value, addr |-> E.addr]
             /\ dumped' = dumped \cup {E.key} /\ UNCHANGED <<utxo, bals, hs, cbv>>
 \* balances on_complete: each row is an address with the sum of its unspent outputs, none twice
 TBalRow == /\ Is("bal_row") /\ E.addr \notin bals
            /\ E.addr \in {utxo[o].addr : o \in DOMAIN utxo}
-           /\ Num(E.balance) = SumVals(utxo, {o \in DOMAIN utxo : utxo[o].addr = E.addr})
+           /\ Limbs(E.balance) = BigSum(utxo, {o \in DOMAIN utxo : utxo[o].addr = E.addr})
            /\ bals' = bals \cup {E.addr} /\ UNCHANGED <<utxo, dumped, hs, cbv>>
 \* nothing missing: every unspent output / every owning address was written
 TCompleted == /\ Is("completed") /\ UNCHANGED <<utxo, dumped, bals, hs, cbv>>
